@@ -144,12 +144,12 @@ EXPORT errno_t _strstr_s_chk(char *dest, rsize_t dmax, const char *src,
         return RCNEGATE(ESZEROL);
     }
 
-    while (*dest && dmax) {
+    while (dmax && *dest) {
         i = 0;
         len = slen;
         dlen = dmax;
 
-        while (src[i] && dlen) {
+        while (dlen && src[i]) {
 
             /* not a match, not a substring */
             if (dest[i] != src[i]) {
